@@ -168,8 +168,10 @@ func (vc *VC) wfTerm(t types.Type, s string, m Mem, depth int) string {
 		return and(extra,
 			app("<=", "0", app("sarr", s)), app("<", app("sarr", s), brk),
 			app("bvule", app("slen", s), app("scap", s)),
-			app("bvult", app("scap", s), "#x0001000000000000"),
-			app("bvult", app("soff", s), "#x0001000000000000"),
+			// an existing slice occupies less than half of the allocatable address space (2^48 bytes):
+			// idealisation, so that len(s)+1 or 2*len(s) elements can still be asked of make
+			app("bvult", app("scap", s), "#x0000800000000000"),
+			app("bvult", app("soff", s), "#x0000800000000000"),
 			implies(eq(app("sarr", s), "0"), eq(app("scap", s), bvLit(64, 0))),
 		)
 	case *types.Interface:
@@ -1628,6 +1630,10 @@ func (fr *frame) makeSlice(x *ssa.MakeSlice) {
 	et := sliceElem(x.Type())
 	// runtime: panics if len/cap out of range; allocation limit is part of the stated idealisation
 	fr.mustHoldAt(and(app("bvule", ln, cp), app("bvult", cp, "#x0001000000000000")), "makeslice: len out of range", x.Pos(), "call")
+	// an allocation of half of the address space or more does not succeed (the process dies with
+	// "out of memory", which is not a panic and not a behaviour any property here speaks about)
+	vc.assume(implies(fr.guard, app("bvult", cp, "#x0000800000000000")))
+	vc.note("idealisation: slices occupy less than half of the address space (cap < 2^47); larger allocations run out of memory")
 	r := vc.alloc(fr.mem, fr.pfx+x.Name())
 	comp := vc.elemComp(et)
 	lt := leafType(et)
